@@ -7,6 +7,13 @@ MC_InitStore == [t |-> << 0, 1, 2 >>, x |-> << 4, 5, 6 >>]
 (* the BaseSolver object of test_base_solver.py; harness/checks/c16.py builds the same *)
 MC_BaseStore == [x |-> << 1, 1, 1 >>, y |-> << 2, 2, 2 >>, t |-> << 0, 1, 2 >>]
 
+(* a ragged store: t has 5 points (an exogenous series after an interrupted run), x 3 *)
+MC_RaggedStore == [t |-> << 0, 1, 2, 3, 4 >>, x |-> << 4, 5, 6 >>]
+MC_ExtNone == {}
+MC_ExtX == { "x" }
+MC_ExtBoth == { "t", "x" }
+MC_CutsRagged == { NoCut, 3 }       \* 3 truncates t and is beyond the last point of x
+
 MC_VarListsOne == { << "x", "y", "t" >> }
 MC_VarListsAll == { << "x", "y", "t" >>, << "t", "x" >>, << "y", "x" >> }
 
@@ -20,5 +27,5 @@ MC_FmtsTwo == { "%.5g", "%.2f" }
 
 (* every maximal behaviour is printed once, as JSON, for the replay driver *)
 Terminal == Len(hist) = MaxHist
-Emit == Terminal => PrintT(<< "BEH", ToJson([varlist |-> vl0, calls |-> hist]) >>)
+Emit == Terminal => PrintT(<< "BEH", ToJson([varlist |-> vl0, store |-> InitStore, calls |-> hist]) >>)
 =============================================================================
